@@ -59,8 +59,10 @@ def c10 (op : String) (a : Array Json) : R (Option Json) := do
     let mx ← jBool (← arg a 1); let n ← jNat (← arg a 2); let fill ← jInt (← arg a 3); let es ← jRow (← arg a 4)
     pure (some (okJ (Json.bool (ExcludedArgStoredFill mx n fill es))))
   | "c10_excluded_unique" =>
-    let n ← jNat (← arg a 1); let fill ← jInt (← arg a 2); let es ← jRow (← arg a 3)
-    pure (some (okJ (Json.arr #[Json.bool (ExcludedStoredFill n fill es), Json.bool (ExcludedTwoBelow n fill es)])))
+    -- ExcludedStoredFill on the row; ExcludedTwoBelow on the effective row (as in `unique_counts_any_variant`)
+    let prune ← jBool (← arg a 1); let n ← jNat (← arg a 2); let fill ← jInt (← arg a 3); let es ← jRow (← arg a 4)
+    pure (some (okJ (Json.arr #[Json.bool (ExcludedStoredFill n fill es),
+      Json.bool (ExcludedTwoBelow n fill (if prune then pruneRow fill es else es))])))
   -- the dense specification, for cross-checking the spec itself against NumPy (leg B)
   | "c10_spec_sort" =>
     let desc ← jBool (← arg a 1); let l ← jList jInt (← arg a 2)
